@@ -260,10 +260,22 @@ func c01Check(c C01Case, cx *h.Ctx) *h.Failure {
 		return f
 	}
 	anyNonEmpty := false
+	// the same operands carrying Z / M / ZM payload (every position its own values): set operations are defined
+	// on XY only, so the results must be the same XY geometries
+	lctA, lctB := 1+len(c.A.String())%3, 1+len(c.B.String())%3
+	AL, BL := c16TagWith(forceCT(c.A, lctA), true).ToGeom(), c16TagWith(forceCT(c.B, lctB), false).ToGeom()
 	for _, op := range c01Ops {
 		var res geom.Geometry
 		var err error
 		h.Lib(op.name, func() { res, err = op.run(A, B) })
+		if strict || err == nil {
+			var resL geom.Geometry
+			var errL error
+			h.Lib(op.name, func() { resL, errL = op.run(AL, BL) })
+			if (errL == nil) != (err == nil) || (err == nil && resL.AsText() != res.AsText()) {
+				return fail(h.Failf("overlay/zm-dependent", "%s of the same XY operands carrying %s / %s payload gives %v %s, without payload %v %s", op.name, gm.CTName(lctA), gm.CTName(lctB), errL, clip(resL.AsText(), 300), err, clip(res.AsText(), 300)))
+			}
+		}
 		if !strict {
 			continue // weak contract only: no panic (checked by the harness); error or geometry
 		}
